@@ -245,6 +245,36 @@ int main(int argc, char** argv) {
             std::string vs; for (int x : vals) vs += std::to_string(x) + " ";
             viol("returned-assignment-violates-constraints", "values " + vs + ": " + desc);
         }
+        // incremental use of the same solver object: more constraints (and tightenings) between the existing variables, solve again
+        if (s.nv >= 2 && r.below(100) < 25) {
+            Sys s2 = s;
+            int extra = 1 + r.below(3);
+            for (int k = 0; k < extra; k++) {
+                if (r.below(100) < 25) {
+                    int v = r.below(s.nv); bool isMax = r.below(2); int val = elo[v] + r.below(std::max(1, ehi[v] - elo[v] + 1));
+                    if (elo[v] > ehi[v]) continue;
+                    if (isMax) { csp.addMaxVal(v, val); ehi[v] = std::min(ehi[v], val); } else { csp.addMinVal(v, val); elo[v] = std::max(elo[v], val); }
+                    s2.tighten.push_back({v, {isMax ? 1 : 0, val}});
+                } else {
+                    Con c; c.v1 = r.below(s.nv); do c.v2 = r.below(s.nv); while (c.v2 == c.v1); c.c = r.below(9) - 4; c.kind = r.below(3);
+                    if (c.kind == 2) csp.addEq(c.v1, c.v2, c.c); else csp.addIneq(c.v1, c.kind == 1 ? CspSolver::GE : CspSolver::LE, c.v2, c.c);
+                    s2.cons.push_back(c);
+                }
+            }
+            if (s2.cons.size() <= 192) {
+                std::string desc2 = s2.str() + " [second solve() on the same object after adding to: " + desc.substr(0, 300) + "]";
+                snprintf(crumb, sizeof(crumb), "%s", desc2.c_str());
+                std::vector<int> vals2;
+                bool got2 = csp.solve(vals2);
+                int want2 = enumerate(s2, elo, ehi, 6000000);
+                if (want2 < 0) want2 = z3Decide(s2, elo, ehi);
+                if (want2 >= 0) {
+                    stat["incremental_second_solves"]++;
+                    if (got2 != (want2 == 1)) viol("satisfiability", std::string("solver says ") + (got2 ? "solvable" : "unsolvable") + ", oracle says " + (want2 ? "solvable" : "unsolvable") + " : " + desc2);
+                    else if (got2 && !okAssign(s2, vals2, elo, ehi)) { std::string vs; for (int x : vals2) vs += std::to_string(x) + " "; viol("returned-assignment-violates-constraints", "values " + vs + ": " + desc2); }
+                }
+            }
+        }
         uint64_t h = 1469598103934665603ull; for (unsigned char c : desc) { h ^= c; h *= 1099511628211ull; }
         if (!s.cons.empty()) distinct.insert(h);
         if (samples < 5 && it % 1013 == 7) { samples++; printf("SAMPLE %s => %s\n", desc.c_str(), want ? "solvable" : "unsolvable"); }
